@@ -57,6 +57,8 @@ INITS = ['', 'default', '0', 'delete']
 def mk_type(enc):
     from dznpy import cpp_gen as G  # pylint: disable=import-outside-toplevel
     from dznpy.scoping import NamespaceIds  # pylint: disable=import-outside-toplevel
+    if enc.get('none'):
+        return G.TypeDesc(G.fqn_t(''))       # "no return type": a conversion operator
     targ = G.TemplateArg(G.Fqn(NamespaceIds(list(enc['targ'])))) if enc['targ'] else None
     post = {'': G.TypePostfix.NONE, '&': G.TypePostfix.REFERENCE, '*': G.TypePostfix.POINTER}[enc['post']]
     return G.TypeDesc(fqn=G.Fqn(NamespaceIds(list(enc['fqn'])), enc['root']), template_arg=targ, postfix=post,
@@ -64,6 +66,8 @@ def mk_type(enc):
 
 
 def type_tokens(enc):
+    if enc.get('none'):
+        return []
     out = ['const'] if enc['const'] else []
     if enc['root']:
         out.append('::')
@@ -167,13 +171,13 @@ def judge(case):
                 return out
             pre = {'MEMBER': [], 'VIRTUAL': ['virtual'], 'STATIC': ['static']}[case['prefix']]
             cav = [case['cav']] if case['cav'] else []
-            decl_want = pre + type_tokens(case['ret']) + [case['name'], '('] + param_tokens(case['params'], True) + \
+            decl_want = pre + type_tokens(case['ret']) + tokens(case['name']) + ['('] + param_tokens(case['params'], True) + \
                 [')'] + cav + (['override'] if case['override'] else []) + \
                 (['=', case['init']] if case['init'] else []) + [';']
             decl = fn.as_decl
             if tokens(decl) != decl_want or decl.count('\n') != 1 or not decl.endswith('\n'):
                 bad('function-decl', f'{decl!r} tokens expected {decl_want}')
-            sig = type_tokens(case['ret']) + ([scope.name, '::'] if scope else []) + [case['name'], '('] + \
+            sig = type_tokens(case['ret']) + ([scope.name, '::'] if scope else []) + tokens(case['name']) + ['('] + \
                 param_tokens(case['params'], False) + [')'] + cav
             defn = fn.as_def
             if case['init']:
@@ -488,6 +492,10 @@ def judge(case):
 
 # ---- enumeration ---------------------------------------------------------------------------
 
+FUNCTION_NAMES = ['fn', 'S', 'S2', 'xS', 'getS', 'S_', 'operator()', 'operator==', 'operator<<', 'operator[]', 'operator bool',
+                  'operator S::Handle', 'operator ::S::Handle', 'operator Other::Handle', 'operator XS::Handle',
+                  'Get<S::Mode>', 'Get<Other::Mode>', 'Get<int>', 'As<S>', 'operator S', 'operator const S::Handle&']
+
 def param_lists():
     for n in range(0, 3):
         yield from (list(c) for c in itertools.product(PARAM_KINDS, repeat=n))
@@ -538,6 +546,15 @@ def other_cases():
     for first, second, how in itertools.product(('struct', 'class', 'namespace'), ('struct', 'class', 'namespace'),
                                                 ('append', 'iadd')):
         yield {'kind': 'sharing', 'first': first, 'second': second, 'how': how}
+    # NAMES of member functions: the name is free text - operators, conversion operators, template specialisations - and
+    # may mention the owner (the scope is called S), other scopes, or contain the owner's name as a substring
+    for name in FUNCTION_NAMES:
+        for scope in (None, 'struct', 'class'):
+            for ret in (RET_TYPES[0], RET_TYPES[2]) if not name.startswith('operator ') else ({'fqn': [], 'none': True},):
+                for contents in ('', 'return;'):
+                    for cav in ('', 'const'):
+                        yield {'kind': 'function', 'ret': ret, 'name': name, 'params': PARAM_KINDS[:1] if 'Get' in name else [],
+                               'prefix': 'MEMBER', 'cav': cav, 'override': False, 'init': '', 'contents': contents, 'scope': scope}
     # SIZE: parameter lists of 3..13 parameters (cycling through the parameter kinds, two rotations)
     for n in range(3, 14):
         for shift in (0, 3):
